@@ -25,6 +25,10 @@ type Unit struct {
 	Kind string // "model" | "seed-tlv" | "seed-bytes" | "seed-pairs" | "ct"
 	Base []byte // the unmutated certificate the unit derives from (default model certificate / the seed)
 	Seed string // name of the seed ("" for model units)
+	// Light marks the units of the thorough tier that C02 exercises with its reduced operation set
+	// (the third-deviation level of the model, byte-level menus of the large seeds, pair mutations);
+	// C06 evaluates every unit in full.
+	Light bool
 	Gen  xgen.Enum
 }
 
@@ -117,15 +121,18 @@ func SaveSeeds(path string, seeds []xgen.Seed) error {
 }
 
 // PairLimit is the largest seed (bytes) that also gets the TLVPairs menu in
-// the thorough tier.
-const PairLimit = 420
+// the thorough tier; QuickBytesLimit the largest seed whose byte-level menu
+// (substitutions + truncations) is part of the quick tier.
+const (
+	PairLimit       = 420
+	QuickBytesLimit = 520
+)
 
 // Config selects the stream.
 type Config struct {
 	Quick      bool
 	ModelDepth int // deviations of the field model
-	Shards     int // model shards
-	SeedLimit  int // quick: number of entries of quickSeeds used (0 = all of the list)
+	Shards     int // shards of the model levels <= 2
 }
 
 // DefaultConfig is the stream of a tier.
@@ -133,48 +140,118 @@ func DefaultConfig(quick bool) Config {
 	if quick {
 		return Config{Quick: true, ModelDepth: 2, Shards: 96}
 	}
-	return Config{Quick: false, ModelDepth: 3, Shards: 2048}
+	return Config{Quick: false, ModelDepth: 3, Shards: 96}
+}
+
+// level3 enumerates the assignments with exactly three non-default fields whose
+// first (lowest-index) deviation is field f1 = alternative a1, sub-shard k of K
+// (running index within (f1,a1) mod K), in lexicographic order of
+// (f2,a2,f3,a3). The union over all (f1,a1,k) is exactly the third level of
+// xgen.EnumAssignments(3); Level3Count cross-checks the total.
+func level3(f1, a1, k, K int) xgen.Enum {
+	return func(visit func(string, []byte) bool) {
+		fields := xgen.Fields()
+		a := xgen.Default()
+		a[f1] = a1
+		i := 0
+		for f2 := f1 + 1; f2 < len(fields); f2++ {
+			for a2 := 1; a2 < len(fields[f2].Alts); a2++ {
+				a[f2] = a2
+				for f3 := f2 + 1; f3 < len(fields); f3++ {
+					for a3 := 1; a3 < len(fields[f3].Alts); a3++ {
+						i++
+						if (i-1)%K != k {
+							continue
+						}
+						a[f3] = a3
+						ok := visit(a.String(), xgen.Encode(a))
+						a[f3] = 0
+						if !ok {
+							a[f2] = 0
+							return
+						}
+					}
+				}
+				a[f2] = 0
+			}
+		}
+	}
+}
+
+func level3Size(f1 int) int {
+	fields := xgen.Fields()
+	n := 0
+	for f2 := f1 + 1; f2 < len(fields); f2++ {
+		for f3 := f2 + 1; f3 < len(fields); f3++ {
+			n += (len(fields[f2].Alts) - 1) * (len(fields[f3].Alts) - 1)
+		}
+	}
+	return n
+}
+
+// Level3Count is the number of assignments enumerated by all level-3 units.
+func Level3Count() int64 {
+	fields := xgen.Fields()
+	var n int64
+	for f1 := range fields {
+		n += int64(len(fields[f1].Alts)-1) * int64(level3Size(f1))
+	}
+	return n
+}
+
+func inQuickList(name string) bool {
+	if strings.HasPrefix(name, "minted:") {
+		return name != "minted:ca:p521"
+	}
+	for _, want := range quickSeeds {
+		if strings.Contains(name, want) {
+			return true
+		}
+	}
+	return false
 }
 
 // Units builds the unit list.
+//
+//	quick:    model levels <= 2; for the quick seed list (11 minted certificates + quickSeeds) the TLV menu,
+//	          and the byte-level menu of those of them that are <= QuickBytesLimit bytes.
+//	thorough: model levels <= 3 (level 3 marked Light); every certificate seed: TLV menu, byte-level menu
+//	          (Light unless the seed is on the quick list), pair menu (Light) when <= PairLimit bytes.
 func Units(cfg Config, all []xgen.Seed) []Unit {
 	var units []Unit
 	def := xgen.Encode(xgen.Default())
 	for k := 0; k < cfg.Shards; k++ {
-		units = append(units, Unit{Name: fmt.Sprintf("model/d<=%d/shard%04d", cfg.ModelDepth, k), Kind: "model", Base: def, Gen: modelShard(cfg.ModelDepth, k, cfg.Shards)})
+		units = append(units, Unit{Name: fmt.Sprintf("model/d<=2/shard%04d", k), Kind: "model", Base: def, Gen: modelShard(2, k, cfg.Shards)})
 	}
-	var sel []xgen.Seed
-	if cfg.Quick {
-		for _, s := range all {
-			// every minted certificate except the P-521 CA (a P-521 subject key makes every
-			// signature check ~2 ms: thorough tier only)
-			if strings.HasPrefix(s.Name, "minted:") && s.Name != "minted:ca:p521" {
-				sel = append(sel, s)
+	if cfg.ModelDepth >= 3 {
+		fields := xgen.Fields()
+		for f1 := range fields {
+			size := level3Size(f1)
+			if size == 0 {
+				continue
 			}
-		}
-		names := quickSeeds
-		if cfg.SeedLimit > 0 && cfg.SeedLimit < len(names) {
-			names = names[:cfg.SeedLimit]
-		}
-		for _, want := range names {
-			for _, s := range all {
-				if strings.Contains(s.Name, want) {
-					sel = append(sel, s)
-					break
+			K := (size + 3999) / 4000
+			for a1 := 1; a1 < len(fields[f1].Alts); a1++ {
+				for k := 0; k < K; k++ {
+					units = append(units, Unit{Name: fmt.Sprintf("model/d=3/%s=%s/%d-of-%d", fields[f1].Name, fields[f1].Alts[a1], k, K), Kind: "model3", Base: def, Light: true, Gen: level3(f1, a1, k, K)})
 				}
 			}
 		}
-	} else {
-		sel = all
 	}
+	sel := append([]xgen.Seed(nil), all...)
 	sort.SliceStable(sel, func(i, j int) bool { return sel[i].Name < sel[j].Name })
 	for _, s := range sel {
 		s := s
-		units = append(units,
-			Unit{Name: "seed/" + s.Name + "/tlv", Kind: "seed-tlv", Base: s.Data, Seed: s.Name, Gen: xgen.Concat(one("seed", s.Data), xgen.TLVSingles(s.Data))},
-			Unit{Name: "seed/" + s.Name + "/bytes", Kind: "seed-bytes", Base: s.Data, Seed: s.Name, Gen: xgen.Concat(xgen.ByteSubs(s.Data), xgen.Truncations(s.Data))})
+		q := inQuickList(s.Name)
+		if cfg.Quick && !q {
+			continue
+		}
+		units = append(units, Unit{Name: "seed/" + s.Name + "/tlv", Kind: "seed-tlv", Base: s.Data, Seed: s.Name, Gen: xgen.Concat(one("seed", s.Data), xgen.TLVSingles(s.Data))})
+		if !cfg.Quick || len(s.Data) <= QuickBytesLimit {
+			units = append(units, Unit{Name: "seed/" + s.Name + "/bytes", Kind: "seed-bytes", Base: s.Data, Seed: s.Name, Light: !q, Gen: xgen.Concat(xgen.ByteSubs(s.Data), xgen.Truncations(s.Data))})
+		}
 		if !cfg.Quick && len(s.Data) <= PairLimit {
-			units = append(units, Unit{Name: "seed/" + s.Name + "/pairs", Kind: "seed-pairs", Base: s.Data, Seed: s.Name, Gen: xgen.TLVPairs(s.Data)})
+			units = append(units, Unit{Name: "seed/" + s.Name + "/pairs", Kind: "seed-pairs", Base: s.Data, Seed: s.Name, Light: true, Gen: xgen.TLVPairs(s.Data)})
 		}
 	}
 	return units
@@ -183,17 +260,24 @@ func Units(cfg Config, all []xgen.Seed) []Unit {
 // Describe is the human-readable rule of the stream (for ev.Rule).
 func Describe(cfg Config, units []Unit) string {
 	n := map[string]int{}
+	light := 0
 	for _, u := range units {
 		n[u.Kind]++
+		if u.Light {
+			light++
+		}
 	}
-	seeds := n["seed-tlv"]
-	s := fmt.Sprintf("input stream = %d units: (a) the certificate field model (%d fields) with <= %d non-default fields = %d encodings in %d shards; "+
-		"(b) for each of %d certificate seeds (%s) the seed itself, every (TLV node x %d operators) single mutation with ancestor lengths fixed up, every single-byte substitution from {00,01,7f,80,ff,b^01,b^80} at every offset and every truncation",
-		len(units), len(xgen.Fields()), cfg.ModelDepth, xgen.CountAssignments(cfg.ModelDepth), n["model"], seeds,
-		map[bool]string{true: "11 of the 12 harness-minted CA/leaf certificates + a fixed list of repository fixtures, one per key kind / extension family", false: "every certificate fixture found under the repository + the 12 harness-minted ones"}[cfg.Quick],
-		xgen.TLVMenuSize)
-	if n["seed-pairs"] > 0 {
-		s += fmt.Sprintf("; (c) every pair of core-menu mutations on siblings / parent+child (TLVPairs) for the %d seeds <= %d bytes", n["seed-pairs"], PairLimit)
+	s := fmt.Sprintf("input stream = %d units: (a) the certificate field model (%d fields, default = self-issued Ed25519 v3 certificate) with <= 2 non-default fields = %d encodings in %d shards",
+		len(units), len(xgen.Fields()), xgen.CountAssignments(2), n["model"])
+	if n["model3"] > 0 {
+		s += fmt.Sprintf(" and with exactly 3 non-default fields = %d encodings in %d units", Level3Count(), n["model3"])
+	}
+	if cfg.Quick {
+		s += fmt.Sprintf("; (b) for each of %d certificate seeds (11 harness-minted CA/leaf certificates + a fixed list of repository fixtures, one per key kind / extension family) the seed itself and every (TLV node x %d operators) single mutation with ancestor lengths fixed up; "+
+			"(c) for the %d of them <= %d bytes every single-byte substitution from {00,01,7f,80,ff,b^01,b^80} at every offset and every truncation", n["seed-tlv"], xgen.TLVMenuSize, n["seed-bytes"], QuickBytesLimit)
+	} else {
+		s += fmt.Sprintf("; (b) for each of %d certificate seeds (every certificate fixture found under the repository + 12 harness-minted ones) the seed itself, every (TLV node x %d operators) single mutation with ancestor lengths fixed up, "+
+			"every single-byte substitution from {00,01,7f,80,ff,b^01,b^80} at every offset and every truncation; (c) every pair of core-menu mutations on siblings / parent+child (TLVPairs) for the %d seeds <= %d bytes", n["seed-tlv"], xgen.TLVMenuSize, n["seed-pairs"], PairLimit)
 	}
 	return s + ". Only the elements that x509.ParseCertificate accepts are subjects of the property; the rest is counted per reject class"
 }
